@@ -113,6 +113,11 @@ pub open spec fn policy_failure(p: TrampolineRoutingPolicy) -> Seq<u8> {
 //@ ensures#early_answer_is_continue_untouched_or_self_hint_failure [C13]
 //    classification answers without waiting on anything and without touching the world
       r is Some ==> (continue_untouched(*req, r->0) || r->0 is Fail)
+//@ ensures#an_early_failure_is_only_the_self_route_hint_refusal [C13,C02,C07,C10]
+//    before the table is consulted nothing is known about an outgoing payment for the hash: the only
+//    failure that may be answered from here is check_htlc's temporary node failure (self route hint);
+//    every policy rejection goes through the entry of the hash (and fails the whole set)
+      (r is Some && r->0 is Fail) ==> r->0->failure_message@ == seq![0x20u8, 2u8]
 //@ ensures#no_side_effect [C13]
 //    no RPC, nothing stored, no state retained: the ghost world is unchanged on every path
       *final(w) == *old(w)
